@@ -273,3 +273,58 @@ func TestC07_Lifespans(t *testing.T) {
 	})
 	h.MarkCompleted()
 }
+
+// TestC07_AssertionExpiry: JWT assertions (private_key_jwt client assertions and JWT-bearer grants) are refused
+// once their exp instant has passed, at every age on both sides of it.
+func TestC07_AssertionExpiry(t *testing.T) {
+	h.SetProperty("C07")
+	selfTest(t)
+	rapid.Check(t, func(rt *rapid.T) {
+		h.ClockReset()
+		kind := rapid.SampledFrom([]string{"client_assertion", "jwt_bearer"}).Draw(rt, "kind")
+		store := rapid.SampledFrom([]string{"mem", "tx"}).Draw(rt, "store")
+		w, _ := c15World(store, func(c *fosite.Config) {
+			c.GrantTypeJWTBearerCanSkipClientAuth = true
+			c.GrantTypeJWTBearerMaxDuration = 24 * time.Hour
+		})
+		life := time.Duration(rapid.SampledFrom([]int{5, 30, 60, 300, 3600}).Draw(rt, "lifetime")) * time.Second
+		issued := h.Now()
+		n := rapid.IntRange(1, 4).Draw(rt, "presentations")
+		var log []string
+		sawBefore, sawAfter := false, false
+		for i := 0; i < n; i++ {
+			off := rapid.SampledFrom([]int{-3, 3, 10, 30, 45, 58, 61, 90, 300, 3601, 86400}).Draw(rt, "secondsAroundExpiry")
+			target := issued.Add(life).Add(time.Duration(off) * time.Second)
+			if target.Before(h.Now()) {
+				continue
+			}
+			h.Advance(target.Sub(h.Now()))
+			jti := fmt.Sprintf("exp-%d-%s", i, rapid.StringMatching("[a-z]{6}").Draw(rt, "jti"))
+			var tr *h.TokenResult
+			if kind == "client_assertion" {
+				a := h.MustSignJWT(h.RSAKey(1), "RS256", "kid-1", map[string]interface{}{"iss": "jwt-client", "sub": "jwt-client", "aud": h.TokenURL, "jti": jti, "exp": issued.Add(life).Unix(), "iat": issued.Unix()})
+				tr = w.Token(url.Values{"grant_type": {"client_credentials"}, "scope": {"a"}, "client_assertion_type": {assertionType}, "client_assertion": {a}}, h.Auth{}, h.TokenOpts{})
+			} else {
+				a := h.MustSignJWT(h.RSAKey(1), "RS256", "bk-1", map[string]interface{}{"iss": "trusted-issuer", "sub": "user-1", "aud": []string{h.TokenURL}, "jti": jti, "exp": issued.Add(life).Unix(), "iat": issued.Unix()})
+				tr = w.Token(url.Values{"grant_type": {jwtBearerGrant}, "assertion": {a}, "scope": {"a"}}, h.Auth{}, h.TokenOpts{Session: h.NewSess("")})
+			}
+			log = append(log, fmt.Sprintf("%s with exp = issue+%v presented %+d s relative to exp -> %v", kind, life, off, tr.Err))
+			rt.Logf("%s", log[len(log)-1])
+			if off >= 3 {
+				sawAfter = true
+				if tr.OK() || tr.Access != "" {
+					h.Violate(rt, "C07/expired-assertion-honoured", "a %s was honoured %d s after its exp\n%s", kind, off, strings.Join(log, "\n"))
+				}
+			} else {
+				sawBefore = true
+				if !tr.OK() {
+					h.Violate(rt, "C07/assertion-refused-before-expiry", "a valid %s was refused %d s before its exp: %v %s\n%s", kind, -off, tr.Err, tr.Err.Hint, strings.Join(log, "\n"))
+				}
+			}
+		}
+		h.Case(fmt.Sprintf("C07/assertion/%s/%v/%s", kind, life, strings.Join(log, ";")), sawAfter, func() any { return map[string]any{"kind": "assertion-expiry", "case": log} })
+		_ = sawBefore
+		h.Label("assertion/" + kind)
+	})
+	h.MarkCompleted()
+}
